@@ -8,7 +8,7 @@ from gen_state import *  # noqa
 PROP_FILES = ["State/Properties_C13.v"]
 MANIFEST = dict(
     technique="Coq proof over a file-system model (names -> inode -> bytes, per-inode flock) of atomic_write_with_lock_timeout as a step list; a crash is any prefix of the protocol; tied to /repo by killing the real CLI at every hook point (exhaustive) and comparing file bytes, left-over temp files, hook traces and the next commands with the model",
-    text="Theorems C13_crash_safe, C13_change_point, C13_never_partial, C13_next_load_ok, C13_no_discard, C13_intact_load, C13_temp_is_private, C13_temp_content, C13_truncation_detected, C13_exclusive_temp_is_fresh, C13_exclusive_temp_refuses_shared_name (create_new: the temp name of a save is bound by that save only; C13_shared_temp_name_refuted keeps the D95 witness for a name two saves share), and for crash HISTORIES of a recycled pid (the stale temp file is part of the state; File::create truncates it) C13_save_after_any_crash_history, C13_crash_safe_after_history, C13_history_target_complete, and for a target that is a mount point C13_refused_rename hold for every prior state (absent or any bytes), every new content, every physical size and every crash point k (unbounded; D14 repaired, no known class). Tie: the SGV_TRACE of a real save equals the model's point list (C13_points_are_protocol); every point x prior in {absent, valid, valid above 1 MiB} x kind in {baseline via check --update-baseline, history via snapshot, cache via check / stats} is killed for real (plus a command that saves two files, killed in either save; plus kills followed by a shorter save of a process with the SAME pid, each invocation being pid 1 of its own PID namespace, with the stale temp file in place; plus two savers of one file, A held at a barrier inside its save while B is killed inside its own, as ordinary processes and each as pid 1 of its own PID namespace; plus every kind with the state file as regular file / symbolic link / hard link / bind-mount point, un-killed with the protocol oracle `a save that changes the file's bytes has passed aw:start..aw:after_rename` and killed by strace syscall injection at write / copy_file_range on the target's path and at the rename) and the target, the temp file and the next commands (check --baseline, stats history, snapshot, check, stats summary) agree with the model and with the property oracle.",
+    text="Theorems C13_crash_safe, C13_change_point, C13_never_partial, C13_next_load_ok, C13_no_discard, C13_intact_load, C13_temp_is_private, C13_temp_content, C13_truncation_detected, C13_exclusive_temp_is_fresh, C13_exclusive_temp_refuses_shared_name (create_new: the temp name of a save is bound by that save only; C13_shared_temp_name_refuted keeps the D95 witness for a name two saves share), and for crash HISTORIES of a recycled pid (the stale temp file is part of the state; File::create truncates it) C13_save_after_any_crash_history, C13_crash_safe_after_history, C13_history_target_complete, and for a target that is a mount point C13_refused_rename hold for every prior state (absent or any bytes), every new content, every physical size and every crash point k (unbounded; D14 repaired, no known class). Tie: the SGV_TRACE of a real save equals the model's point list (C13_points_are_protocol); every point x prior in {absent, valid, valid above 1 MiB} x kind in {baseline via check --update-baseline, history via snapshot, cache via check / stats} is killed for real (plus a command that saves two files, killed in either save; plus kills followed by a shorter save of a process with the SAME pid, each invocation being pid 1 of its own PID namespace, with the stale temp file in place; plus two savers of one file, A held at a barrier inside its save while B is killed inside its own, as ordinary processes and each as pid 1 of its own PID namespace; plus saves under a file-size limit of 0 / 64 bytes, the cut write failing with EFBIG or killing the process with SIGXFSZ inside the system call; plus a .git directory appearing after the history / cache was recorded, the first command afterwards run under the size limit, with EVERY state file under the project (old and new state directory) required to be absent or a complete document; plus every kind with the state file as regular file / symbolic link / hard link / bind-mount point, un-killed with the protocol oracle `a save that changes the file's bytes has passed aw:start..aw:after_rename` and killed by strace syscall injection at write / copy_file_range on the target's path and at the rename) and the target, the temp file and the next commands (check --baseline, stats history, snapshot, check, stats summary) agree with the model and with the property oracle.",
     note="Trusted: Coq kernel, extraction, kernel rename/flock semantics (atomic rebinding; per-inode reader-writer lock dropped at process death), std::process::abort as the crash (page cache survives: the Fsync step is checked as an ordering fact only, no power loss), JSON (de)serialisation abstracted to: complete documents parse, the empty file and proper prefixes do not (C13_truncation_detected).",
     ref="5 (C13)")
 
@@ -255,8 +255,14 @@ def run(ctx):
     fails += tf
     hist["two savers, one killed"] = tn
     ctx.cov["two_process_crash"] = tnote
-    ctx.cov["evaluations"] = len(cases) + cn + rn + ln + tn
-    ctx.cov["distinct_nontrivial"] = len(really_killed) + ckilled + rkilled + lkilled + tkilled
+    # ---- write faults (file-size limit: EFBIG or SIGXFSZ) inside a save; a .git directory appearing between two commands
+    fm, ff, fkilled, fn_, fnote = faults_and_transitions(ctx, cli, drv, points)
+    mism += fm
+    fails += ff
+    hist["write faults / size-limit kills / .git appears"] = fn_
+    ctx.cov["faults_and_transitions"] = fnote
+    ctx.cov["evaluations"] = len(cases) + cn + rn + ln + tn + fn_
+    ctx.cov["distinct_nontrivial"] = len(really_killed) + ckilled + rkilled + lkilled + tkilled + fkilled
     ctx.cov["exhaustive"] = True
     ctx.cov["traces_validated_against_impl"] = trace_ok + len(really_killed)
     ctx.cov["rule"] = ("exhaustive product: every hook point of the save protocol (%d) x prior state {absent, valid, valid about 1 MB} x kind "
@@ -436,6 +442,126 @@ def recycled_pid(ctx, cli, drv, points):
             big.close()
             small.close()
     return mism, fails, killed, n, {"cases": n, "killed_as_pid_1": killed, "how": "unshare --pid --fork per invocation"}
+
+
+def run_limited(sb, cli, args, limit, ignore, now=NOW0, env=None):
+    """The CLI with RLIMIT_FSIZE = limit bytes: a write that would extend ANY regular file beyond the limit
+    is cut there; the process then gets SIGXFSZ (killed inside the write system call, wherever that is in the code),
+    or, with the signal ignored, the write fails with EFBIG (an I/O fault like a full disk)."""
+    argv = ["prlimit", "--fsize=%d" % limit, "--"] + ([ "sh", "-c", 'trap "" XFSZ; exec "$@"', "sh"] if ignore else []) + [cli, "--color", "never"] + list(args)
+    return sb.run(argv[0], argv[1:], env=base_env(now, env), timeout=60)
+
+
+def state_files(proj):
+    """every file under the project (the .git directory included) that is named like a state file -> read_state"""
+    out = {}
+    for d, _, fs_ in os.walk(proj):
+        for f in fs_:
+            if f in (os.path.basename(HISTORY), os.path.basename(CACHE), BASELINE):
+                out[os.path.relpath(os.path.join(d, f), proj)] = read_state(os.path.join(d, f))
+    return out
+
+
+def faults_and_transitions(ctx, cli, drv, points):
+    """(A) A save under a file-size limit of 0 / 64 bytes, for each kind and prior absent / valid: the write to
+    the temp file is cut; with SIGXFSZ the process dies inside the write (a kill at a system call, not at a hook
+    point), with the signal ignored the write FAILS (EFBIG). Model: a failed step ends the protocol before the
+    rename, the guard removes the temp file (as in save_refused); a kill leaves a partial temp file; the target
+    is untouched either way. Oracle: target unchanged or the complete new document, next commands as on an
+    intact file.
+    (B) History / cache recorded without .git, then a .git directory appears (the state directory moves to
+    .git/sloc-guard/): the first command afterwards (reader or writer) runs under the size limit (killed at its
+    first write beyond it) or unrestricted. Oracle: EVERY state file under the project, old and new location,
+    is absent or a complete document, the old files are unchanged, and the next commands list / append to what
+    the active history file holds."""
+    mism, fails, killed, n = [], [], 0, 0
+    if shutil.which("prlimit") is None:
+        return mism, fails, 0, 0, {"skipped": "prlimit not available"}
+    tpl, jobs = {}, []
+    for kind in KINDS:
+        for prior in ("absent", "valid"):
+            tsb, prior_doc, _ = make_template(cli, kind, prior)
+            tpl[(kind, prior)] = (tsb, prior_doc, reference(cli, tsb, kind, prior, "check", points))
+            for limit in (0, 64):
+                for ignore in (True, False):
+                    jobs.append(("A", kind, prior, limit, ignore, None))
+    for kind, prior in (("history", "valid"), ("history", "large"), ("cache", "valid")):
+        if (kind, prior) not in tpl:
+            tsb, prior_doc, _ = make_template(cli, kind, prior)
+            tpl[(kind, prior)] = (tsb, prior_doc, None)
+        cmds = [["stats", "history"], ["snapshot", "--no-sloc-cache", "--force"], ["check", "."], ["stats", "summary"]] if kind == "history" else [["check", "."], ["stats", "summary"]]
+        for cmd in cmds:
+            for limit in (64, None):
+                jobs.append(("B", kind, prior, limit, False, cmd))
+
+    def one(job):
+        leg, kind, prior, limit, ignore, cmd = job
+        tsb, prior_doc, ref = tpl[(kind, prior)]
+        with copy_template(tsb) as sb:
+            target = os.path.join(sb.proj, KIND_FILE[kind])
+            if leg == "A":
+                rc, so, se = run_limited(sb, cli, save_cmd(kind, prior, "check"), limit, ignore)
+                st, doc, size = read_state(target)
+                o = {"rc": rc, "state": classify(kind, st, doc, prior_doc, ref["new_doc"]), "size": size, "err": norm(sb, se).strip()[-160:],
+                     "temps": sorted(temp_files(os.path.dirname(target), os.path.basename(target)).values()), "entries_after_kill": entries_of(kind, doc)}
+                o["next"], o["final_state"], o["final_entries"] = run_next(sb, cli, kind)
+                return o
+            os.mkdir(os.path.join(sb.proj, ".git"))
+            rc, so, se = run_limited(sb, cli, cmd, limit, False) if limit is not None else run_cli(sb, cli, cmd)
+            files = state_files(sb.proj)
+            active = os.path.join(sb.proj, ".git", "sloc-guard", os.path.basename(HISTORY))
+            ast, adoc, _ = read_state(active)
+            o = {"rc": rc, "err": norm(sb, se).strip()[-160:], "files": {k: (v[0], v[2]) for k, v in files.items()},
+                 "old_same": files.get(KIND_FILE[kind], ("absent", None, 0))[1] == prior_doc, "entries_after_kill": entries_of("history", adoc) if adoc else []}
+            o["next"] = [(name, r, norm(sb, a), norm(sb, b)) for name, args, now in NEXT["history"] for r, a, b in [run_cli(sb, cli, args, now=now)]]
+            st2, doc2, _ = read_state(active)
+            o["final_state"], o["final_entries"] = st2, entries_of("history", doc2)
+            return o
+
+    try:
+        with cf.ThreadPoolExecutor(max_workers=8) as ex:
+            res = list(ex.map(one, jobs))
+    finally:
+        for tsb, _, _ in tpl.values():
+            tsb.close()
+    for (leg, kind, prior, limit, ignore, cmd), o in zip(jobs, res):
+        n += 1
+        unchanged = "absent" if prior == "absent" else "prior"
+        bad = None
+        if leg == "A":
+            ref = tpl[(kind, prior)][2]
+            case = {"kind": kind, "prior": prior, "then": "faults", "file_size_limit_bytes": limit, "command": save_cmd(kind, prior, "check"),
+                    "fault": "writes beyond the limit fail with EFBIG (SIGXFSZ ignored)" if ignore else "the process is killed by SIGXFSZ inside the write beyond the limit",
+                    "how": "prlimit --fsize=%d -- %s<cli> ..." % (limit, "sh -c 'trap \"\" XFSZ; exec \"$@\"' sh " if ignore else "")}
+            if not ignore and o["rc"] == -25:
+                killed += 1
+            if o["state"] != unchanged or (ignore and o["temps"]) or (not ignore and o["rc"] != -25):
+                mism.append({"relation": "a write to the temp file that fails ends the protocol before the rename (temp file removed); a kill inside the write leaves the target untouched", "case": case,
+                             "impl": [o["rc"], o["state"], o["temps"], o["err"]], "model": [unchanged, [] if ignore else "partial temp"]})
+            if o["state"] not in (unchanged, "new"):
+                bad = "%s file is %s (%d bytes) after a save whose write to the temp file was cut at %d bytes (%s); exit %s, stderr `%s`" % (kind, o["state"], o["size"], limit, "EFBIG" if ignore else "SIGXFSZ", o["rc"], o["err"][-80:])
+            else:
+                want = ref["next_new"] if o["state"] == "new" else ref["next_prior"]
+                if o["next"] != want[0]:
+                    bad = "a next command behaves differently from the same command on an intact %s file" % o["state"]
+                elif kind == "history":
+                    bad = history_listing(o)
+        else:
+            case = {"kind": kind, "prior": prior, "then": "faults", "transition": "mkdir .git after the %s was recorded in .sloc-guard/" % kind, "command": cmd,
+                    "file_size_limit_bytes": limit, "fault": "killed by SIGXFSZ at the first write beyond the limit" if limit is not None else "none"}
+            if o["rc"] == -25:
+                killed += 1
+            broken = {k: v for k, v in o["files"].items() if v[0] != "ok"}
+            if broken:
+                bad = "state files that are not complete documents after `%s` (exit %s) as the first command after .git appeared: %s" % (" ".join(cmd), o["rc"], broken)
+            elif not o["old_same"]:
+                bad = "the %s file recorded before .git appeared was changed" % kind
+            else:
+                bad = history_listing(o)
+        if bad:
+            fails.append({"kind": "property-oracle", "what": bad, "case": case, "observed": {k: v for k, v in o.items() if k not in ("next",)} | {"next": summarize(o["next"], o["final_entries"])},
+                          "replay_cmd": "python3 tools/vp.py check C13 --replay <this file>"})
+    return mism, fails, killed, n, {"cases": n, "killed_by_SIGXFSZ": killed}
 
 
 HOLD_KILL = [("aw:after_fsync", "aw:after_create_temp"), ("aw:after_fsync", "aw:after_fsync"), ("aw:after_create_temp", "aw:after_create_temp"),
@@ -772,7 +898,7 @@ def replay(ctx, path):
         return 0
     if "then" in c or c.get("kind") == "cache+baseline":
         print("case :", c)
-        f = (links_and_syscalls(ctx, cli, drv, points) if c.get("then") == "link/mount" else two_process_crash(ctx, cli, drv, points) if c.get("then") == "two savers" else recycled_pid(ctx, cli, drv, points) if "then" in c else combo(ctx, cli, drv, points))
+        f = (links_and_syscalls(ctx, cli, drv, points) if c.get("then") == "link/mount" else two_process_crash(ctx, cli, drv, points) if c.get("then") == "two savers" else faults_and_transitions(ctx, cli, drv, points) if c.get("then") == "faults" else recycled_pid(ctx, cli, drv, points) if "then" in c else combo(ctx, cli, drv, points))
         print("mismatches:", json.dumps(f[0])[:1500])
         print("oracle    :", json.dumps(f[1])[:3000])
         return 0
